@@ -15,6 +15,8 @@ interpreter (core/interp.go, frame.go) are not mirrored; they are tied to this s
 correspondence suite (program results, and `Block.CompileAsFunction` of every block).
 -/
 import Gsu.Proofs.LangBlocks
+import Gsu.Proofs.LangBlocks4
+import Gsu.Proofs.LangBlocks7
 namespace Gsu.Props.C29
 open Gsu.LangBlocks
 
@@ -93,12 +95,9 @@ theorem catch_variable_is_a_use (s : Scope) (x w : Nat) (e : Expr)
 
 /-- Closure vs plain function, static part: a block that the sharing analysis compiles as a
 plain function (`isClosure = false`, the mirror of `Block.CompileAsFunction`) binds every name it
-mentions itself, contains no `return`, and so do all blocks nested in it.
-PARTIAL: the full statement — running such a block with a fresh store (as a plain function does)
-gives the same result and leaves the caller's store unchanged, for every program — needs an
-induction over `evalE` that is not done; the suite checks it by re-running every such program
-with all blocks forced to be closures. -/
-theorem closure_vs_function_partial (n : Nat) (chain : List Scope) (k : Scope)
+mentions itself, contains no `return`, and so do all blocks nested in it. (The dynamic statement is
+`closure_vs_function_equiv` below; this lemma is what its proof starts from.) -/
+theorem closure_vs_function_static (n : Nat) (chain : List Scope) (k : Scope)
     (h : isClosure (n + 1) chain k = false) :
     (∀ v ∈ namesD k, (bindingGo chain k v).id = k.id) ∧ hasRet k = false ∧
     (∀ c ∈ kids k, isClosure n (k :: chain) c = false) :=
@@ -107,5 +106,136 @@ theorem closure_vs_function_partial (n : Nat) (chain : List Scope) (k : Scope)
 -- non-vacuity: function(){ b = {|y| z = y; z } } — the block shares nothing
 example : isClosure 3 [Scope.mk 1 [] [] (.num 0)] (Scope.mk 2 [1] [.assign 2 (.var 1)] (.var 2)) = false := by
   decide
+
+/-- Static consequence used by the dynamic theorem: every name of a block that may be compiled as
+a plain function (`cfAll`: `isClosure = false` and its scope id is not reused by an enclosing or a
+nested scope) denotes a PRIVATE cell in the reference semantics — no name of it lives in the shared
+store, whatever the enclosing scopes use. -/
+theorem function_block_cells_private (chain : List Scope) (s : Scope) (h : cfAll chain s = true) :
+    ∀ v ∈ namesD s, cellOf s chain v = .priv v :=
+  plain_cells chain s h
+
+/-- Closure vs plain function, dynamic part, FULL mini language (return out of blocks, try/catch,
+conditional assignment, nested function literals, recursion through shared names included).
+`runTop₂ cf` (Proofs/LangBlocks2.lean) is the second semantics: a clause-for-clause copy of the
+reference semantics `runTop`/`evalE`/`runBody` in which every call of a block value `(s, chain)`
+with `cf chain s = true` is run as a plain function — every name of that frame lives in a fresh
+private store of the call and the frame never reads or writes the shared store. For EVERY decision
+`cf` that only picks blocks the analysis allows (`cfAll`), every program, every fuel and argument,
+the two semantics return the same thing: the same value, or both fail (exception / out of fuel).
+So whether a block is compiled as a closure or as a plain function never changes a program's result.
+
+`cfAll chain s = !isClosure reachFuel chain s && idsOK chain s`: `idsOK` says the scope id of `s` is
+its own (differs from the ids of the enclosing scopes and of the blocks nested in it). The store of
+the reference semantics is keyed by scope id, so a program that numbers two nested scopes alike is
+not a program of the language (`closure_vs_function_needs_ids_counter`); the generator numbers
+scopes uniquely (assumption in checks/C29.json), then `cfAll` IS `!isClosure`:
+`closure_vs_function_equiv_unique_ids` below states that with a static hypothesis. -/
+theorem closure_vs_function_equiv (cf : List Scope → Scope → Bool)
+    (hcf : ∀ chain s, cf chain s = true → cfAll chain s = true)
+    (program : Scope) (fuel : Nat) (arg : Int) :
+    runTop₂ cf fuel program arg = runTop fuel program arg :=
+  runTop₂_eq cf hcf fuel program arg
+
+/-- … in particular for the maximal decision (every block that is not a closure runs as a plain
+function) and the minimal one (every block is a closure: `runTop₂` is then `runTop` itself). -/
+theorem closure_vs_function_equiv_all (program : Scope) (fuel : Nat) (arg : Int) :
+    runTop₂ cfAll fuel program arg = runTop fuel program arg ∧
+    runTop₂ (fun _ _ => false) fuel program arg = runTop fuel program arg :=
+  ⟨runTop₂_eq cfAll (fun _ _ h => h) fuel program arg,
+   runTop₂_eq _ (fun _ _ h => by cases h) fuel program arg⟩
+
+/-- The agreement holds at every level, not only for whole programs: in any frame whose mentioned
+names are private cells whenever it is marked plain, expressions and statement lists evaluate to
+the same `Res` (value, frame, store, pending return, error state) in both semantics. -/
+theorem closure_vs_function_equiv_steps (cf : List Scope → Scope → Bool)
+    (hcf : ∀ chain s, cf chain s = true → cfAll chain s = true) (fuel : Nat) :
+    (∀ pl fr st e, (∀ v ∈ exprNames e, Priv pl fr v) →
+      evalE₂ cf fuel pl fr st e = evalE fuel fr st e) ∧
+    (∀ pl fr st b, (∀ t ∈ b, ∀ v ∈ stmtNames t, Priv pl fr v) →
+      runBody₂ cf fuel pl fr st b = runBody fuel fr st b) :=
+  ⟨(agree_all cf hcf fuel).1, (agree_all cf hcf fuel).2.2⟩
+
+private def valInt : Option Val → Option Int
+  | some (.int i) => some i
+  | _ => none
+
+-- non-vacuity: function(){ x = 1; b = {|y| z = y; z }; c = {|y| x = x + y; x }; r = b(5); q = c(7); x + r }
+-- b is run as a plain function, c is a closure (shares x); both semantics give 13
+example :
+    let bB := Scope.mk 2 [4] [.assign 5 (.var 4)] (.var 5)
+    let bC := Scope.mk 3 [4] [.assign 0 (.add (.var 0) (.var 4))] (.var 0)
+    let top := Scope.mk 1 [] [.assign 0 (.num 1), .assign 1 (.block bB), .assign 2 (.block bC),
+      .assign 3 (.call 1 (.num 5)), .assign 6 (.call 2 (.num 7))] (.add (.var 0) (.var 3))
+    cfAll [top] bB = true ∧ cfAll [top] bC = false ∧
+      valInt (runTop₂ cfAll 20 top 0) = some 13 ∧ valInt (runTop 20 top 0) = some 13 := by decide
+
+-- the private store of a plain call is really separate: with the (wrong) decision "every block is a
+-- plain function" the closure c above loses its shared x and the program fails, so `runTop₂` is
+-- not `runTop` in disguise and the hypothesis `hcf` is needed
+example :
+    let bB := Scope.mk 2 [4] [.assign 5 (.var 4)] (.var 5)
+    let bC := Scope.mk 3 [4] [.assign 0 (.add (.var 0) (.var 4))] (.var 0)
+    let top := Scope.mk 1 [] [.assign 0 (.num 1), .assign 1 (.block bB), .assign 2 (.block bC),
+      .assign 3 (.call 1 (.num 5)), .assign 6 (.call 2 (.num 7))] (.add (.var 0) (.var 3))
+    valInt (runTop₂ (fun _ _ => true) 20 top 0) = none ∧ valInt (runTop 20 top 0) = some 13 := by
+  decide
+
+/-- Why `idsOK` is part of `cfAll`: function(){ b = {|y| x = y; c = {|u| x = 5; 0 }; q = c(0); x }; b(3) }
+with the inner block numbered like the outer one (id 2 twice). Both blocks pass `isClosure = false`
+(each binds an `x` "of scope 2"), but the store key (activation, 2, x) makes them share x: the
+reference semantics returns 5, running them as plain functions returns 3. Scope ids must be
+unique for the model to describe the language at all. -/
+theorem closure_vs_function_needs_ids_counter :
+    let bC := Scope.mk 2 [7] [.assign 0 (.num 5)] (.num 0)
+    let bB := Scope.mk 2 [4] [.assign 0 (.var 4), .assign 1 (.block bC), .assign 6 (.call 1 (.num 0))] (.var 0)
+    let top := Scope.mk 1 [] [.assign 2 (.block bB)] (.call 2 (.num 3))
+    isClosure reachFuel [top] bB = false ∧ idsOK [top] bB = false ∧
+      valInt (runTop 20 top 0) = some 5 ∧
+      valInt (runTop₂ (fun chain s => !isClosure reachFuel chain s) 20 top 0) = some 3 := by
+  decide
+
+/-- The same with a STATIC condition on the program instead of the per-call id check: in the
+second semantics EVERY block with `isClosure = false` is run as a plain function (fresh private
+store for all its names, no access to the shared store). If at every lexical position of the
+program (`Pos`: the outermost function, blocks below the scope they are written in, nested function
+literals as roots of their own) the scope id is not reused by an enclosing or nested scope, both
+semantics give the same result for every fuel and argument. The proof carries the run-time
+invariant that every block / function value in the store, in private cells and in results is a
+lexical position of the program (`inv_all`). By `closure_vs_function_needs_ids_counter` the
+condition on the ids cannot be dropped. -/
+theorem closure_vs_function_equiv_unique_ids (program : Scope)
+    (hids : ∀ chain s, Pos program chain s → idsOK chain s = true) (fuel : Nat) (arg : Int) :
+    runTop₂ (fun chain s => !isClosure reachFuel chain s) fuel program arg =
+      runTop fuel program arg :=
+  runTop₂_eq_G (G := Pos program) (pos_closed program)
+    (fun chain s hp hc => by simp only [cfAll, hids chain s hp, Bool.and_true]; exact hc)
+    fuel program Pos.root arg
+
+-- non-vacuity of the id condition: the two-block program above satisfies it
+example :
+    let bB := Scope.mk 2 [4] [.assign 5 (.var 4)] (.var 5)
+    let bC := Scope.mk 3 [4] [.assign 0 (.add (.var 0) (.var 4))] (.var 0)
+    let top := Scope.mk 1 [] [.assign 0 (.num 1), .assign 1 (.block bB), .assign 2 (.block bC),
+      .assign 3 (.call 1 (.num 5)), .assign 6 (.call 2 (.num 7))] (.add (.var 0) (.var 3))
+    ∀ chain s, Pos top chain s → idsOK chain s = true := by
+  intro bB bC top chain s h
+  have key : (chain = [] ∧ s = top) ∨ (chain = [top] ∧ s = bB) ∨ (chain = [top] ∧ s = bC) := by
+    induction h with
+    | root => exact Or.inl ⟨rfl, rfl⟩
+    | kid _ hk ih =>
+      rcases ih with ⟨rfl, rfl⟩ | ⟨rfl, rfl⟩ | ⟨rfl, rfl⟩
+      · simp [top, kids, stmtKids, exprKids, Scope.body, Scope.result] at hk
+        rcases hk with rfl | rfl
+        · exact Or.inr (Or.inl ⟨rfl, rfl⟩)
+        · exact Or.inr (Or.inr ⟨rfl, rfl⟩)
+      · simp [bB, kids, stmtKids, exprKids, Scope.body, Scope.result] at hk
+      · simp [bC, kids, stmtKids, exprKids, Scope.body, Scope.result] at hk
+    | fn _ hf ih =>
+      rcases ih with ⟨rfl, rfl⟩ | ⟨rfl, rfl⟩ | ⟨rfl, rfl⟩
+      · simp [top, fnsOf, stmtFns, exprFns, Scope.body, Scope.result] at hf
+      · simp [bB, fnsOf, stmtFns, exprFns, Scope.body, Scope.result] at hf
+      · simp [bC, fnsOf, stmtFns, exprFns, Scope.body, Scope.result] at hf
+  rcases key with ⟨rfl, rfl⟩ | ⟨rfl, rfl⟩ | ⟨rfl, rfl⟩ <;> decide
 
 end Gsu.Props.C29
